@@ -69,9 +69,9 @@ def run_or_load_task(task: Task, task_name: str, use_cache: bool,
        and use_cache=True
 
     """
-    orig_process_name = multiprocessing.current_process().name
+    current_process = multiprocessing.current_process()
+    orig_process_name = current_process.name
     try:
-        current_process = multiprocessing.current_process()
         current_process.name = task_name
 
         if use_cache:
